@@ -156,5 +156,28 @@ theorem intersection_translate (l1 l2 : Line) (d : Pt)
     simp only [Pt.add_x, Pt.add_y]
     exact ⟨roundDiv_translate _ _ _ hd h1 h3, roundDiv_translate _ _ _ hd h2 h4⟩
 
+/-- Without any guard: moved lines are colinear iff the lines are, and the outer side (the sign of
+the determinant) is the same; only the rounded point may be affected by a saturating cast. -/
+theorem intersection_translate_shape (l1 l2 : Line) (d : Pt) :
+    match (IntersectionParams.fromLines l1 l2).intersection with
+    | .colinear =>
+      (IntersectionParams.fromLines (l1.translate d) (l2.translate d)).intersection = .colinear
+    | .point _ s =>
+      ∃ p', (IntersectionParams.fromLines (l1.translate d) (l2.translate d)).intersection = .point p' s := by
+  unfold IntersectionParams.intersection
+  rw [denominator_translate]
+  by_cases hd : (IntersectionParams.fromLines l1 l2).denominator = 0
+  · simp only [hd, ↓reduceIte]
+  · simp only [hd, ↓reduceIte]
+    exact ⟨_, rfl⟩
+
+/-- The rounded point of this pair of lines is either discarded (`nearly_colinear_has_error`) or
+its casts do not saturate, before and after the move. -/
+def IntersectionParams.PointOK (p : IntersectionParams) (d : Pt) : Prop :=
+  p.nearlyColinearHasError = true ∨ p.NoSat d
+
+instance (p : IntersectionParams) (d : Pt) : Decidable (p.PointOK d) := by
+  unfold IntersectionParams.PointOK; exact inferInstance
+
 end Joins
 end EG
